@@ -10,7 +10,11 @@ Expr terms over exact rationals; proved over R in Props/C17.v).  The driver
     of set / initialize / optimiser-step operations against the model cell;
  C. compares every prior's log_prob with the documented density (model Expr), integrates the
     implementation's density with mpmath.quad where a normalised density is claimed, evaluates registered
-    priors on the constrained value and checks sample_from_prior read-back."""
+    priors on the constrained value and checks sample_from_prior read-back;
+ D. LKJCholeskyFactorPrior / LKJPrior / LKJCovariancePrior on exact rational correlation matrices against the density of
+    the Cholesky factor and the documented density of the matrix (Props: they differ by the log Jacobian);
+ E. Prior(transform=log/exp/square) = base density at transform(x); MultivariateNormalPrior against exact rational
+    linear algebra (inverse certificate + determinant in Coq)."""
 import json
 import math
 import os
@@ -596,6 +600,172 @@ def part_prior_modules(out, rng, tier):
                          desc, impl=vals[:4], model=pv[:4])
 
 
+# ------------------------------------------------------------------------------- D. LKJ priors
+
+def lkj_factors():
+    """lower-triangular factors with RATIONAL unit rows (exact correlation matrices L L^T)"""
+    from fractions import Fraction as F
+    yield 2, [[1, 0], [F(3, 5), F(4, 5)]]
+    yield 2, [[1, 0], [F(-5, 13), F(12, 13)]]
+    yield 2, [[1, 0], [0, 1]]
+    yield 3, [[1, 0, 0], [F(3, 5), F(4, 5), 0], [F(2, 7), F(3, 7), F(6, 7)]]
+    yield 3, [[1, 0, 0], [F(-4, 5), F(3, 5), 0], [F(1, 9), F(4, 9), F(8, 9)]]
+    yield 3, [[1, 0, 0], [0, 1, 0], [F(2, 3), F(-1, 3), F(2, 3)]]
+    yield 3, [[1, 0, 0], [F(8, 17), F(15, 17), 0], [0, 0, 1]]
+    yield 4, [[1, 0, 0, 0], [F(3, 5), F(4, 5), 0, 0], [F(2, 7), F(3, 7), F(6, 7), 0], [F(1, 5), F(2, 5), F(2, 5), F(4, 5)]]
+    yield 4, [[1, 0, 0, 0], [F(-5, 13), F(12, 13), 0, 0], [F(1, 3), F(-2, 3), F(2, 3), 0], [F(1, 2), F(-1, 2), F(1, 2), F(1, 2)]]
+
+
+def part_lkj(out, rng, tier):
+    """LKJCholeskyFactorPrior / LKJPrior / LKJCovariancePrior log_prob against the documented densities.
+    Model: lp_lkj_chol (density of the Cholesky factor = torch LKJCholesky) and lp_lkj_corr (density of the
+    correlation matrix, C |Sigma|^(eta-1), what LKJPrior documents); Props: the two differ by the log Jacobian."""
+    from fractions import Fraction as F
+    etas = [1.0, 0.5, 2.5, 4.0] if tier == "quick" else [1.0, 0.5, 0.75, 1.5, 2.5, 4.0, 10.0]
+    sds_pool = [F(1, 2), F(3, 2), F(2), F(3, 4)]
+    sd_priors = [("PGamma %s %s" % (C.qc_lit(2.0), C.qc_lit(3.0)), lambda n: P.GammaPrior(2.0, 3.0), "scalar"),
+                 ("PLogNormal %s %s" % (C.qc_lit(0.25), C.qc_lit(0.75)), lambda n: P.LogNormalPrior(0.25, 0.75), "scalar"),
+                 ("PSmoothedBox %s %s %s" % (C.qc_lit(0.25), C.qc_lit(2.5), C.qc_lit(0.125)),
+                  lambda n: P.SmoothedBoxPrior(0.25, 2.5, 0.125), "event1")]
+    rows, terms = [], []
+    for n, L in lkj_factors():
+        Lf = [[F(x) for x in r] for r in L]
+        S = [[sum(Lf[i][k] * Lf[j][k] for k in range(n)) for j in range(n)] for i in range(n)]
+        assert all(S[i][i] == 1 for i in range(n))
+        sds = sds_pool[:n]
+        for eta in etas:
+            rows.append((n, Lf, S, eta, sds, len(terms)))
+            terms.append("(KLKJ (%d%%nat, %s, %s))" % (n, C.qc_lit(eta), C.qc_vec([Lf[i][i] for i in range(n)])))
+    sd_off = len(terms)
+    for lit, _, _ in sd_priors:        # the sd-prior densities at the pool values
+        terms.append("(KPrior (%s, %s))" % (lit, C.qc_vec(sds_pool)))
+    res = C.coq_run_cases("C17_lkj" + TAGSFX, IMPORTS, RUN_DEF, terms, shard=max(4, (len(terms) + 7) // 8))
+    sd_model = []
+    for k in range(len(sd_priors)):
+        rd = C.Reader(res[sd_off + k])
+        sd_model.append([rd.expr() for _ in sds_pool])
+    tof = lambda M: torch.tensor([[float(x) for x in r] for r in M])  # noqa: E731
+    for n, Lf, S, eta, sds, ti in rows:
+        rd = C.Reader(res[ti])
+        m_chol, m_corr = rd.expr(), rd.expr()
+        desc = dict(n=n, eta=eta, L=[[float(x) for x in r] for r in Lf])
+        jac = abs(float(m_chol - m_corr)) > 1e-9
+        # 1. the factor prior
+        out.case(dict(desc, prior="LKJCholeskyFactorPrior"), True, label="prior-density:LKJCholeskyFactorPrior")
+        with torch.no_grad():
+            got = P.LKJCholeskyFactorPrior(n, eta).log_prob(tof(Lf)).item()
+        if not close(got, m_chol, 1e-9, 1e-9):
+            out.fail("prior:LKJCholeskyFactorPrior:log_prob", "log_prob(L) = %r, documented density of the Cholesky factor gives %r"
+                     % (got, float(m_chol)), desc, impl=got, model=float(m_chol))
+        # 2. the prior over correlation matrices
+        out.case(dict(desc, prior="LKJPrior"), jac, label="prior-density:LKJPrior")
+        with torch.no_grad():
+            got = P.LKJPrior(n, eta).log_prob(tof(S)).item()
+        if not close(got, m_corr, 1e-9, 1e-9):
+            if close(got, m_chol, 1e-9, 1e-9):
+                out.fail("prior:LKJPrior:factor-density-not-matrix-density",
+                         "LKJPrior(n=%d, eta=%r).log_prob(Sigma) = %r is the density of the Cholesky FACTOR at chol(Sigma); the "
+                         "documented density C|Sigma|^(eta-1) of the correlation matrix gives %r (they differ by the Jacobian "
+                         "prod_i L_ii^(n-i), n >= 3)" % (n, eta, got, float(m_corr)), desc, impl=got, model=float(m_corr))
+            else:
+                out.fail("prior:LKJPrior:log_prob", "log_prob(Sigma) = %r matches neither the documented matrix density %r nor the "
+                         "factor density %r" % (got, float(m_corr), float(m_chol)), desc, impl=got, model=float(m_corr))
+        # 3. covariance prior = LKJ on the correlations + sd prior on the marginal standard deviations
+        D = [[sds[i] if i == j else F(0) for j in range(n)] for i in range(n)]
+        X = [[D[i][i] * S[i][j] * D[j][j] for j in range(n)] for i in range(n)]
+        for k, (lit, mk, kind) in enumerate(sd_priors):
+            d2 = dict(desc, prior="LKJCovariancePrior", sd_prior=lit, sds=[float(x) for x in sds])
+            out.case(d2, True, label="prior-density:LKJCovariancePrior")
+            sd_terms = [sd_model[k][sds_pool.index(x)] for x in sds]
+            want = m_chol + mpmath.fsum(sd_terms)      # the correlation part as LKJPrior evaluates it (see 2.)
+            try:
+                with torch.no_grad():
+                    got = P.LKJCovariancePrior(n, eta, mk(n)).log_prob(tof(X))
+            except Exception as e:
+                out.fail("prior:LKJCovariancePrior:exception", "log_prob raised %s: %s" % (type(e).__name__, str(e)[:200]), d2)
+                continue
+            if got.numel() == 1:
+                if not close(got.item(), want, 1e-9, 1e-9):
+                    out.fail("prior:LKJCovariancePrior:log_prob", "log_prob(X) = %r; LKJ density of the correlations + sum of the "
+                             "sd-prior densities of sqrt(diag X) = %r" % (got.item(), float(want)), d2, impl=got.item(),
+                             model=float(want))
+            else:
+                g = got.reshape(-1).tolist()
+                per = [m_chol + t for t in sd_terms]
+                if len(g) == n and all(close(a, b, 1e-9, 1e-9) for a, b in zip(g, per)):
+                    out.fail("prior:LKJCovariancePrior:scalar-sd-prior-not-summed",
+                             "with a scalar sd_prior (the documented usage) log_prob(X) returns %d values log p(corr) + log p(sd_i) "
+                             "instead of the joint log density log p(corr) + sum_i log p(sd_i) = %r (the MLL sums them, counting the "
+                             "LKJ term %d times)" % (n, float(want), n), d2, impl=g, model=float(want))
+                else:
+                    out.fail("prior:LKJCovariancePrior:log_prob", "log_prob(X) returns %r; expected the joint log density %r"
+                             % (g, float(want)), d2, impl=g, model=float(want))
+
+
+# ------------------------------------------------------------------------------- E. transform= / multivariate normal
+
+def part_prior_transforms(out, rng, tier):
+    """Prior(..., transform=t).log_prob(x) is the base density at t(x) (priors/prior.py); MultivariateNormalPrior
+    against det(2 pi Sigma)^-1/2 exp(-1/2 (x-mu)' Sigma^-1 (x-mu)) with exact rational linear algebra."""
+    g = lambda a, b: round(rng.uniform(a, b), 3)  # noqa: E731
+    TR = {1: torch.log, 2: torch.exp, 3: torch.square}
+    rows, terms = [], []
+    for _ in range(2 if tier == "quick" else 8):
+        mu, sd = g(-1, 1), g(0.3, 2)
+        a, b = g(0.8, 4), g(0.5, 3)
+        table = [("PNormal %s %s" % (C.qc_lit(mu), C.qc_lit(sd)), lambda t: P.NormalPrior(mu, sd, transform=t), 1, [0.05, 0.7, 1.0, 3.5, 40.0]),
+                 ("PNormal %s %s" % (C.qc_lit(mu), C.qc_lit(sd)), lambda t: P.NormalPrior(mu, sd, transform=t), 3, [-2.0, -0.3, 0.0, 0.9, 2.5]),
+                 ("PGamma %s %s" % (C.qc_lit(a), C.qc_lit(b)), lambda t: P.GammaPrior(a, b, transform=t), 2, [-3.0, -0.5, 0.0, 0.8, 2.0]),
+                 ("PLogNormal %s %s" % (C.qc_lit(mu), C.qc_lit(sd)), lambda t: P.LogNormalPrior(mu, sd, transform=t), 2, [-2.0, 0.0, 0.4, 1.5]),
+                 ("PHalfCauchy %s" % C.qc_lit(sd), lambda t: P.HalfCauchyPrior(sd, transform=t), 3, [-1.5, 0.2, 0.0, 3.0]),
+                 ("PHalfNormal %s" % C.qc_lit(sd), lambda t: P.HalfNormalPrior(sd, transform=t), 2, [-4.0, -1.0, 0.0, 1.0]),
+                 ("PHorseshoe %s" % C.qc_lit(sd), lambda t: P.HorseshoePrior(sd, transform=t), 2, [-2.0, 0.0, 1.0]),
+                 ("PSmoothedBox %s %s %s" % (C.qc_lit(a), C.qc_lit(a + b), C.qc_lit(0.125)),
+                  lambda t: P.SmoothedBoxPrior(a, a + b, 0.125, transform=t), 2, [-1.0, 0.0, 0.7, 1.4, 2.2])]
+        for lit, mk, t, xs in table:
+            xs = [float(x) for x in xs]
+            rows.append(("tr", lit, mk(TR[t]), t, xs, len(terms)))
+            terms.append("(KPriorT (%s, %d%%nat, %s))" % (lit, t, C.qc_vec(xs)))
+    for k in (1, 2, 3, 4):
+        for _ in range(2 if tier == "quick" else 6):
+            Lm = [[rng.randint(-8, 8) / 8.0 if j < i else (rng.randint(2, 12) / 8.0 if j == i else 0.0) for j in range(k)] for i in range(k)]
+            Lt = torch.tensor(Lm)
+            Sg = (Lt @ Lt.T)
+            mu = [rng.randint(-16, 16) / 8.0 for _ in range(k)]
+            for kw in ("covariance_matrix", "scale_tril"):
+                xs = [rng.randint(-24, 24) / 8.0 for _ in range(k)]
+                prior = P.MultivariateNormalPrior(torch.tensor(mu), **{kw: Sg if kw == "covariance_matrix" else Lt})
+                rows.append(("mvn", kw, prior, k, (mu, Sg.tolist(), xs), len(terms)))
+                terms.append("(KMVN (%d%%nat, %s, %s, %s))" % (k, C.qc_vec(mu), C.qc_mat(Sg.tolist()), C.qc_vec(xs)))
+    res = C.coq_run_cases("C17_ptr" + TAGSFX, IMPORTS, RUN_DEF, terms, shard=max(4, (len(terms) + 7) // 8))
+    for kind, lit, prior, t, data, ti in rows:
+        rd = C.Reader(res[ti])
+        if kind == "tr":
+            cls = type(prior).__name__
+            for x in data:
+                model = rd.expr()
+                desc = dict(prior=lit, transform={1: "log", 2: "exp", 3: "square"}[t], x=x)
+                out.case(desc, True, label="prior-transform:" + cls)
+                with torch.no_grad():
+                    got = prior.log_prob(torch.tensor([x]) if cls == "SmoothedBoxPrior" else torch.tensor(x)).reshape(-1)[0].item()
+                if not close(got, model, 1e-9, 1e-9):
+                    out.fail("prior:%s:transform" % cls, "%s(transform=%s).log_prob(%r) = %r, base density at transform(x) gives %r"
+                             % (cls, desc["transform"], x, got, float(model)), desc, impl=got, model=float(model))
+        else:
+            mu, Sg, xs = data
+            desc = dict(prior="MultivariateNormalPrior", given=lit, k=t, mu=mu, Sigma=Sg, x=xs)
+            out.case(desc, True, label="prior-density:MultivariateNormalPrior")
+            if rd.int() != 1:
+                out.fail("prior:MultivariateNormalPrior:model", "model could not invert the generated covariance", desc)
+                continue
+            model = rd.expr()
+            with torch.no_grad():
+                got = prior.log_prob(torch.tensor(xs)).item()
+            if not close(got, model, 1e-9, 1e-9):
+                out.fail("prior:MultivariateNormalPrior:log_prob", "log_prob(x) = %r, documented density gives %r" % (got, float(model)),
+                         desc, impl=got, model=float(model))
+
+
 # ------------------------------------------------------------------------------- entry points
 
 def run(out, ctx):
@@ -605,7 +775,7 @@ def run(out, ctx):
     torch.manual_seed(seed)
     times = {}
     for name, part in (("transforms", part_transforms), ("modules", part_modules), ("priors", part_priors),
-                       ("prior_modules", part_prior_modules)):
+                       ("prior_modules", part_prior_modules), ("lkj", part_lkj), ("prior_transforms", part_prior_transforms)):
         t0 = time.time()
         part(out, rng, tier)
         times[name] = round(time.time() - t0, 1)
@@ -616,7 +786,10 @@ def run(out, ctx):
                 "kernel/likelihood/mean configurations: setter round trip (scalar + tensor), out-of-bounds assignment, "
                 "random histories (<= 6 ops of set / out-of-bounds set / initialize(raw) / initialize(constrained) / SGD step); "
                 "C: 8 prior classes x 3 parameter draws x support grid, normalisation by quadrature, every *_prior kwarg of "
-                "%d modules: sample_from_prior read-back and density on the constrained value"
+                "%d modules: sample_from_prior read-back and density on the constrained value; D: LKJCholeskyFactorPrior / "
+                "LKJPrior / LKJCovariancePrior (3 sd priors) on 9 exact rational correlation matrices (n = 2, 3, 4) x 4 eta; "
+                "E: 8 prior classes with transform= (log / exp / square) and MultivariateNormalPrior (k = 1..4, covariance / "
+                "scale_tril parametrisation) against exact rational linear algebra"
                 % (len(RAW_GRID) + (20 if tier == "quick" else 200), len(list(modules_table())), len(list(prior_modules(rng)))))
     out.exhaustive = False
     out.extra["tolerances"] = {"transform/inverse/log_prob vs model": "1e-9 (abs scaled by bounds + rel)",
